@@ -1,4 +1,319 @@
-import CopVerif.Model.GaussTransform
+import CopVerif.Lemmas.GaussTransformReal
+/-!
+# C13 — Gaussian-copula density/CDF equal the normal-score MVN, in any representation
+
+Property theorems only.  They are about `CopVerif.Model.GaussTransform` — the GENERATED glue
+`CopVerif.Gen.GaussTransform` (`_transform_to_normal`, `probability_density`,
+`cumulative_distribution`, `log_probability_density`, read off /repo on every run) instantiated
+with the hand-modelled pandas primitives.  `transformToNormal m X` is the PLAN of
+`model._transform_to_normal(X)`: a matrix of terms over the external symbols `CDF j`, `CLIP`,
+`NORMPPF` (the run-time tie interprets it with the real fitted objects and demands bit-equality
+with the real method); `pdfPlan / cdfPlan / logPdfPlan` add `MVNPDF / MVNCDF / LOG`.
+Equality of plans is therefore equality of results under EVERY interpretation of the symbols.
+-/
+set_option linter.unusedSectionVars false
 namespace CopVerif.Props.C13
-theorem stub : True := trivial
+open CopVerif CopVerif.Model.GaussTransform
+
+section plans
+variable {L α : Type} [DecidableEq L] [Add α] [Sub α] [Mul α] [Div α] [Neg α] [NumFns α]
+
+/-- **Container invariance.**  For a rectangular DataFrame with distinct column labels:
+(1) for EVERY permutation `σ` of its column positions the permuted frame has the same plan;
+(2) a Series is its one-row frame, (3) also with its index in any order;
+(4) a 2-d array and (5) a 1-d array of the right width are the frame labelled with the TRAINING
+columns.  (By `density_container_invariant` the same holds for pdf / cdf / log pdf.) -/
+theorem container_invariant (m : GModel L) (ls : List L) (rows : List (List α)) (hnd : ls.Nodup)
+    (hrect : ∀ r ∈ rows, r.length = ls.length) :
+    (∀ σ : List Nat, σ.Perm (List.range ls.length) →
+        transformToNormal m (.frame (reindex σ ls) (rows.map (reindex σ)))
+          = transformToNormal m (.frame ls rows))
+    ∧ (∀ row : List α, transformToNormal m (.series ls row) = transformToNormal m (.frame ls [row]))
+    ∧ (∀ (σ : List Nat) (row : List α), σ.Perm (List.range ls.length) → row.length = ls.length →
+        transformToNormal m (.series (reindex σ ls) (reindex σ row))
+          = transformToNormal m (.frame ls [row]))
+    ∧ (∀ rows' : List (List α), (∀ r ∈ rows', r.length = m.cols.length) →
+        transformToNormal m (.arr2 rows') = transformToNormal m (.frame m.cols rows'))
+    ∧ (∀ row : List α, row.length = m.cols.length →
+        transformToNormal m (.arr1 row) = transformToNormal m (.frame m.cols [row])) := by
+  refine ⟨fun σ hσ => transformToNormal_reindex m ls rows σ hnd hσ hrect,
+    fun row => transformToNormal_series m ls row, ?_, ?_, ?_⟩
+  · intro σ row hσ hlen
+    rw [transformToNormal_series]
+    exact transformToNormal_reindex m ls [row] σ hnd hσ (by simpa using hlen)
+  · intro rows' h
+    rw [transformToNormal_arr2, if_pos (by simpa using h)]
+  · intro row h
+    rw [transformToNormal_arr1, transformToNormal_arr2, if_pos (by simpa using h)]
+
+/-- non-vacuity of `container_invariant`'s hypotheses (two distinct labels, the swap). -/
+example : (["a", "b"] : List String).Nodup ∧ ([1, 0] : List Nat).Perm (List.range 2) ∧
+    reindex [1, 0] ["a", "b"] = ["b", "a"] := by decide
+
+/-- The general form behind (1): the second frame only has to be, row by row, a permutation of the
+first AS A LIST OF LABELLED CELLS (no common permutation is assumed; distinct labels force it). -/
+theorem container_invariant_perm (m : GModel L) {ls ls' : List L} {rows rows' : List (List α)}
+    (hnd : ls.Nodup) (hls : ls'.Perm ls)
+    (hrows : List.Forall₂ (fun r' r => (ls'.zip r').Perm (ls.zip r)) rows' rows) :
+    transformToNormal m (.frame ls' rows') = transformToNormal m (.frame ls rows) :=
+  transformToNormal_perm m hnd hls hrows
+
+/-- pdf, cdf and log pdf see `X` only through its scores: equal plans of the scores give equal plans
+(hence equal values under every interpretation `E` of the external symbols). -/
+theorem density_container_invariant (m : GModel L) {x y : Container L α}
+    (h : transformToNormal m x = transformToNormal m y) :
+    pdfPlan m x = pdfPlan m y ∧ cdfPlan m x = cdfPlan m y ∧ logPdfPlan m x = logPdfPlan m y :=
+  densities_congr m h
+
+/-- An array whose width is not the number of training columns is refused (`ValueError`). -/
+theorem array_wrong_width_refused (m : GModel L) (rows : List (List α))
+    (h : ∃ r ∈ rows, r.length ≠ m.cols.length) :
+    transformToNormal m (.arr2 rows) = .error .valueError := by
+  rw [transformToNormal_arr2, if_neg]
+  simpa using h
+
+/-- **Row independence of the scores**: the plan of a frame is the row-wise map of `rowPlan`, which
+sees one row only; each row evaluated alone gives exactly its row of the batch. -/
+theorem row_independent (m : GModel L) (ls : List L) (rows : List (List α)) (S : Block (Term α))
+    (h : transformToNormal m (.frame ls rows) = .ok S) :
+    S.rows = rows.map (rowPlan m ls) ∧
+      ∀ r ∈ rows, transformToNormal m (.frame ls [r]) = .ok ⟨S.width, [rowPlan m ls r]⟩ := by
+  rw [transformToNormal_frame] at h
+  cases ha : anyPresent m ls with
+  | false => simp [ha] at h
+  | true =>
+    simp only [ha, if_true, Except.ok.injEq] at h
+    subst h
+    refine ⟨rfl, fun r _ => ?_⟩
+    rw [transformToNormal_frame]
+    simp [ha]
+
+/-- **Row independence of the density**: every value of the batch is a function of its own row, and
+a row evaluated alone gives the same plan. -/
+theorem pdf_row_independent (m : GModel L) (ls : List L) (rows : List (List α)) (ys : List (RTerm α))
+    (h : pdfPlan m (.frame ls rows) = .ok ys) :
+    ys = rows.map (fun r => RTerm.mvnpdf true (shapeRow m.corr.dim (planWidth m ls) (rowPlan m ls r))) ∧
+      ∀ r ∈ rows, pdfPlan m (.frame ls [r]) =
+        .ok [RTerm.mvnpdf true (shapeRow m.corr.dim (planWidth m ls) (rowPlan m ls r))] := by
+  rw [pdfPlan_frame] at h
+  split_ifs at h with h1 h2 h3
+  simp only [Except.ok.injEq] at h
+  refine ⟨h.symm, fun r _ => ?_⟩
+  rw [pdfPlan_frame]
+  simp [h1, h2, h3]
+
+/-- same for the CDF (a non-empty batch). -/
+theorem cdf_row_independent (m : GModel L) (ls : List L) (rows : List (List α)) (ys : List (RTerm α))
+    (h : cdfPlan m (.frame ls rows) = .ok ys) :
+    ys = rows.map (fun r => RTerm.mvncdf Gen.GaussTransform.cdfAllowSingular (rowPlan m ls r)) ∧
+      ∀ r ∈ rows, cdfPlan m (.frame ls [r]) =
+        .ok [RTerm.mvncdf Gen.GaussTransform.cdfAllowSingular (rowPlan m ls r)] := by
+  rw [cdfPlan_frame] at h
+  split_ifs at h with h1 h2 h3 h4
+  simp only [Except.ok.injEq] at h
+  refine ⟨h.symm, fun r _ => ?_⟩
+  rw [cdfPlan_frame]
+  simp [h1, h2, h3, h4.1]
+
+/-- **Extra columns are ignored**: deleting every column whose label is not a training column changes
+nothing (scores; hence pdf, cdf, log pdf). -/
+theorem extra_columns_ignored (m : GModel L) (ls : List L) (rows : List (List α))
+    (hrect : ∀ r ∈ rows, r.length = ls.length) :
+    transformToNormal m (dropExtra m ls rows) = transformToNormal m (.frame ls rows) ∧
+      pdfPlan m (dropExtra m ls rows) = pdfPlan m (.frame ls rows) ∧
+      cdfPlan m (dropExtra m ls rows) = cdfPlan m (.frame ls rows) ∧
+      logPdfPlan m (dropExtra m ls rows) = logPdfPlan m (.frame ls rows) :=
+  ⟨transformToNormal_dropExtra m ls rows hrect, densities_congr m (transformToNormal_dropExtra m ls rows hrect)⟩
+
+/-- For a frame with distinct labels containing every training column the score matrix has exactly
+one column per TRAINING column, in TRAINING order (`rowPlan` walks `m.cols`). -/
+theorem scores_width (m : GModel L) (ls : List L) (rows : List (List α)) (hnd : ls.Nodup)
+    (hall : ∀ l ∈ m.cols, l ∈ ls) (hne : m.cols ≠ []) :
+    transformToNormal m (.frame ls rows) = .ok ⟨m.cols.length, rows.map (rowPlan m ls)⟩ := by
+  rw [transformToNormal_frame, anyPresent_of_all m hne hall, planWidth_eq m hnd hall]
+  rfl
+
+/-- **`log_probability_density` is the logarithm of `probability_density`** (plan level: `LOG` applied
+to each value; error cases propagate unchanged). -/
+theorem log_pdf_is_log_plan (m : GModel L) (x : Container L α) :
+    logPdfPlan m x = (pdfPlan m x).map fun ys => ys.map RTerm.log :=
+  logPdfPlan_eq m x
+
+/-- pdf and cdf of a fitted model are DEFINED (no exception) for every non-empty well-formed frame,
+whatever scipy's verdict on the stored correlation (`allow_singular=True` on both calls). -/
+theorem densities_defined (m : GModel L) (ls : List L) (rows : List (List α)) (hfit : m.fitted = true)
+    (hnd : ls.Nodup) (hall : ∀ l ∈ m.cols, l ∈ ls) (hne : m.cols ≠ []) (hdim : m.corr.dim = m.cols.length)
+    (hrows : rows ≠ []) :
+    (∃ ys, pdfPlan m (.frame ls rows) = .ok ys ∧ ys.length = rows.length) ∧
+      (∃ ys, cdfPlan m (.frame ls rows) = .ok ys ∧ ys.length = rows.length) := by
+  have hw := planWidth_eq m hnd hall
+  have ha := anyPresent_of_all m hne hall
+  constructor
+  · rw [pdfPlan_frame]
+    simp [hfit, ha, hw, hdim]
+  · rw [cdfPlan_frame]
+    have : Gen.GaussTransform.cdfAllowSingular = true := rfl
+    simp [hfit, ha, hw, hdim, hrows, this]
+
+/-- non-vacuity of `densities_defined` / `scores_width`. -/
+example : ∃ m : GModel String, m.fitted = true ∧ m.cols ≠ [] ∧ m.corr.dim = m.cols.length ∧
+    m.corr.singular = true ∧ (∀ l ∈ m.cols, l ∈ ["b", "x", "a"]) :=
+  ⟨⟨true, ["a", "b"], ⟨2, true⟩⟩, rfl, by simp, rfl, rfl, by simp⟩
+
+/-- What the repaired call guards against (finding `cumulative_distribution:raises[near-singular
+correlation]`, fixed in /repo): WITHOUT `allow_singular` a stored correlation that scipy deems
+singular makes the CDF raise for every score matrix. -/
+theorem cdf_singular_not_allowed_raises (S : Block (Term α)) (d : Nat) :
+    mvnCdfBatch S ⟨d, true⟩ false = .error .valueError := by
+  simp [mvnCdfBatch]
+
+/-- An unfitted model refuses all three methods (`NotFittedError`). -/
+theorem unfitted_refused (m : GModel L) (x : Container L α) (h : m.fitted = false) :
+    pdfPlan m x = .error .notFitted ∧ cdfPlan m x = .error .notFitted ∧
+      logPdfPlan m x = .error .notFitted := by
+  have hp : pdfPlan m x = .error .notFitted := by
+    simp [pdfPlan, Gen.GaussTransform.probabilityDensity, checkFit, h, bind, Except.bind]
+  refine ⟨hp, ?_, ?_⟩
+  · simp [cdfPlan, Gen.GaussTransform.cumulativeDistribution, checkFit, h, bind, Except.bind]
+  · rw [logPdfPlan_eq, hp]; rfl
+
+end plans
+
+/-! ## order and range (over ℝ, external symbols as hypotheses) -/
+
+section real
+variable {L : Type} [DecidableEq L]
+
+/-- `log_probability_density(X) = log(probability_density(X))` value by value, under every
+interpretation of the external symbols. -/
+theorem log_pdf_is_log (E : Ext ℝ) (m : GModel L) (x : Container L ℝ) :
+    logPdf E m x = (pdf E m x).map fun ys => ys.map Real.log := by
+  unfold logPdf pdf
+  rw [logPdfPlan_eq]
+  cases pdfPlan m x with
+  | error e => rfl
+  | ok ys => simp [Except.map, RTerm.eval, Function.comp_def]
+
+/-- **Each score is non-decreasing in its cell**, given monotone marginal CDFs and a monotone `Φ⁻¹`
+(`clip` is monotone because `ε ≤ 1 - ε` for the generated bounds). -/
+theorem score_mono_cell {E : Ext ℝ} (hE : MonoExt E) (j : Nat) :
+    Monotone fun x : ℝ => (scoreTerm j x).eval E :=
+  scoreTerm_eval_mono hE j
+
+/-- **The score matrix is coordinate-wise non-decreasing in the query**: raising cells of a frame
+(same labels) raises, entry by entry, the scores. -/
+theorem scores_mono {E : Ext ℝ} (hE : MonoExt E) (m : GModel L) (ls : List L) {rows rows' : List (List ℝ)}
+    (h : List.Forall₂ (List.Forall₂ (· ≤ ·)) rows rows') {S S' : List (List ℝ)}
+    (hS : scores E m (.frame ls rows) = .ok S) (hS' : scores E m (.frame ls rows') = .ok S') :
+    List.Forall₂ (List.Forall₂ (· ≤ ·)) S S' := by
+  unfold scores at hS hS'
+  rw [transformToNormal_frame] at hS hS'
+  cases ha : anyPresent m ls with
+  | false => simp [ha, Except.map] at hS
+  | true =>
+    simp only [ha, if_true, Except.map, Except.ok.injEq, List.map_map] at hS hS'
+    subst hS hS'
+    rw [List.forall₂_map_left_iff, List.forall₂_map_right_iff]
+    exact List.Forall₂.imp (fun _ _ hr => rowScores_mono hE m ls hr) h
+
+/-- non-vacuity of `MonoExt`. -/
+example : MonoExt ⟨fun _ x => x, fun x => x, fun _ _ => 0, fun _ _ => 0⟩ :=
+  ⟨fun _ => monotone_id, monotone_id⟩
+
+/-- what is assumed of `scipy.stats.multivariate_normal.cdf(·, cov=Σ)`: a CDF. -/
+structure MVNCDFSpec (F : List ℝ → ℝ) : Prop where
+  mono : ∀ z z', List.Forall₂ (· ≤ ·) z z' → F z ≤ F z'
+  nonneg : ∀ z, 0 ≤ F z
+  le_one : ∀ z, F z ≤ 1
+
+/-- non-vacuity of `MVNCDFSpec`: the CDF of the point mass at the origin. -/
+example : MVNCDFSpec fun z => if ∀ x ∈ z, (0 : ℝ) ≤ x then 1 else 0 := by
+  refine ⟨?_, fun z => by split_ifs <;> norm_num, fun z => by split_ifs <;> norm_num⟩
+  intro z z' h
+  have key : (∀ x ∈ z, (0 : ℝ) ≤ x) → ∀ x ∈ z', (0 : ℝ) ≤ x := by
+    induction h with
+    | nil => intro _ x hx; simp at hx
+    | cons hab _ ih =>
+      intro hz x hx
+      rcases List.mem_cons.mp hx with rfl | hx
+      · exact le_trans (hz _ (by simp)) hab
+      · exact ih (fun y hy => hz y (by simp [hy])) x hx
+  by_cases hz : ∀ x ∈ z, (0 : ℝ) ≤ x
+  · rw [if_pos hz, if_pos (key hz)]
+  · rw [if_neg hz]; split_ifs <;> norm_num
+
+/-- **`cumulative_distribution` takes values in `[0,1]`**, for every container, GIVEN `MVNCDFSpec`. -/
+theorem cdf_range {E : Ext ℝ} (hF : ∀ b, MVNCDFSpec (E.mvncdf b)) (m : GModel L) (x : Container L ℝ)
+    {ys : List ℝ} (h : cdf E m x = .ok ys) : ∀ y ∈ ys, 0 ≤ y ∧ y ≤ 1 := by
+  unfold cdf cdfPlan Gen.GaussTransform.cumulativeDistribution at h
+  cases hc : checkFit m with
+  | error e => simp [hc, bind, Except.bind, Except.map] at h
+  | ok u =>
+    cases ht : transformToNormal m x with
+    | error e => simp [hc, ht, bind, Except.bind, Except.map] at h
+    | ok S =>
+      simp only [hc, ht, bind, Except.bind, mvnCdfBatch] at h
+      split_ifs at h <;> simp only [Except.map, Except.ok.injEq, reduceCtorEq] at h
+      subst h
+      intro y hy
+      simp only [List.map_map, List.mem_map, Function.comp_apply, RTerm.eval] at hy
+      obtain ⟨r, _, rfl⟩ := hy
+      exact ⟨(hF _).nonneg _, (hF _).le_one _⟩
+
+/-- **`cumulative_distribution` is non-decreasing in every coordinate** of the query (frames with the
+same labels; other containers reduce to frames by `container_invariant`), GIVEN monotone marginals,
+monotone `Φ⁻¹` and `MVNCDFSpec`. -/
+theorem cdf_mono_coord {E : Ext ℝ} (hE : MonoExt E) (hF : ∀ b, MVNCDFSpec (E.mvncdf b)) (m : GModel L)
+    (ls : List L) {rows rows' : List (List ℝ)} (h : List.Forall₂ (List.Forall₂ (· ≤ ·)) rows rows')
+    {ys ys' : List ℝ} (hy : cdf E m (.frame ls rows) = .ok ys) (hy' : cdf E m (.frame ls rows') = .ok ys') :
+    List.Forall₂ (· ≤ ·) ys ys' := by
+  unfold cdf at hy hy'
+  rw [cdfPlan_frame] at hy hy'
+  split_ifs at hy hy' <;> simp only [Except.map, Except.ok.injEq, reduceCtorEq] at hy hy'
+  subst hy hy'
+  simp only [List.map_map]
+  rw [List.forall₂_map_left_iff, List.forall₂_map_right_iff]
+  refine List.Forall₂.imp (fun r r' hr => ?_) h
+  simp only [Function.comp_apply, RTerm.eval]
+  exact (hF _).mono _ _ (rowScores_mono hE m ls hr)
+
+/-! ## the executable MVN density (Cholesky), τ = 2π -/
+
+/-- **Positivity**: whenever the factorisation succeeds (all pivots positive) the density
+`exp(-q/2) / sqrt(τ^d · (Π L_ii)²)` is positive. -/
+theorem mvn_pdf_pos {τ : ℝ} (hτ : 0 < τ) (A : List (List ℝ)) (z : List ℝ) {p : ℝ}
+    (h : mvnPdf τ A z = some p) : 0 < p := by
+  unfold mvnPdf at h
+  cases hc : cholesky A with
+  | none => simp [hc] at h
+  | some L =>
+    simp only [hc, Option.map_some, Option.some.injEq] at h
+    exact h ▸ mvnPdfChol_pos hτ (cholesky_diagPos hc) z
+
+/-- the textbook form is `exp` of the log form (the one compared with scipy at `Float`). -/
+theorem mvn_pdf_eq_exp_log {τ : ℝ} (hτ : 0 < τ) (A : List (List ℝ)) (z : List ℝ) :
+    mvnPdf τ A z = (mvnLogPdf τ A z).map Real.exp := by
+  unfold mvnPdf mvnLogPdf
+  cases hc : cholesky A with
+  | none => rfl
+  | some L => simp [mvnPdfChol_eq_exp_log hτ (cholesky_diagPos hc) z]
+
+/-- PARTIAL: the density is defined (the factorisation succeeds) for every symmetric positive
+definite matrix of dimension `d ≤ 2`.  Missing: `d ≥ 3` (needs the Schur-complement induction for
+the list-based factorisation; covered numerically by the tie against scipy for `d ≤ 6`). -/
+theorem mvn_pdf_defined_partial {τ : ℝ} (z : List ℝ) :
+    (∀ a : ℝ, 0 < a → ∃ p, mvnPdf τ [[a]] z = some p) ∧
+      (∀ a b c : ℝ, 0 < a → 0 < a * c - b * b → ∃ p, mvnPdf τ [[a, b], [b, c]] z = some p) := by
+  constructor
+  · intro a ha
+    obtain ⟨L, hL⟩ := cholesky_defined_one ha
+    exact ⟨mvnPdfChol τ L z, by simp [mvnPdf, hL]⟩
+  · intro a b c ha hdet
+    obtain ⟨L, hL⟩ := cholesky_defined_two ha hdet
+    exact ⟨mvnPdfChol τ L z, by simp [mvnPdf, hL]⟩
+
+/-- non-vacuity: the correlation matrix with ρ = 1/2 is covered by `mvn_pdf_defined_partial`. -/
+example : (0 : ℝ) < 1 ∧ (0 : ℝ) < 1 * 1 - (1 / 2) * (1 / 2) := by norm_num
+
+end real
 end CopVerif.Props.C13
